@@ -737,6 +737,59 @@ func runHistory(c *histCase, cfgs []protocol.Protocol) {
 }
 
 // genHistory builds one history. focus selects the mutation emphasis: "any", "auth", "window".
+// histScript, when set, fixes the (type, mutation) of every step of the next history: the
+// systematic part of the streams (every failure class of every operation type at a position
+// where the operation would otherwise take effect) does not depend on what the PRNG happens to draw.
+var histScript [][2]string
+
+func mutationPool(focus, typ string) []string {
+	muts := mutationsFor(typ)
+	var pool []string
+	switch focus {
+	case "window":
+		for _, m := range muts {
+			switch m {
+			case "", "early", "late", "at_from", "at_until", "at_default_until", "after_default_until", "until_only", "inverted_window", "negative_until", "negative_from", "compose_fails":
+				pool = append(pool, m)
+			}
+		}
+	case "auth":
+		for _, m := range muts {
+			if m == "" || strings.HasPrefix(m, "sig_") || strings.HasPrefix(m, "key_") || strings.HasPrefix(m, "reveal_") ||
+				strings.HasPrefix(m, "delta_substituted") || m == "delta_hash_truncated" || strings.Contains(m, "header") || strings.HasPrefix(m, "alg_") ||
+				m == "payload_reencoded" || m == "kid_added_no_resign" || strings.HasPrefix(m, "signed_suffix_") || m == "recover_payload_replayed" || strings.HasPrefix(m, "jws_") {
+				pool = append(pool, m)
+			}
+		}
+	default:
+		pool = muts
+	}
+	return pool
+}
+
+// systematicScripts: each mutation of each operation type once right after a valid create and
+// once after a valid create + update (for create: alone and followed by a valid update)
+func systematicScripts(focus string) [][][2]string {
+	var out [][][2]string
+	seen := map[string]bool{}
+	for _, typ := range []string{"update", "recover", "deactivate", "create"} {
+		for _, m := range mutationPool(focus, typ) {
+			if seen[typ+"/"+m] {
+				continue
+			}
+			seen[typ+"/"+m] = true
+			if typ == "create" {
+				out = append(out, [][2]string{{"create", m}, {"update", ""}})
+				out = append(out, [][2]string{{"create", ""}, {"create", m}})
+				continue
+			}
+			out = append(out, [][2]string{{"create", ""}, {typ, m}, {"update", ""}})
+			out = append(out, [][2]string{{"create", ""}, {"update", ""}, {"recover", ""}, {typ, m}})
+		}
+	}
+	return out
+}
+
 func genHistory(r *rand.Rand, focus string, maxLen int) (*histCase, []protocol.Protocol) {
 	base := baseProtocol(r)
 	kinds := keyKinds
@@ -747,6 +800,9 @@ func genHistory(r *rand.Rand, focus string, maxLen int) (*histCase, []protocol.P
 	c := &histCase{Cfg: base}
 	var cfgs []protocol.Protocol
 	n := 2 + r.Intn(maxLen-1)
+	if histScript != nil {
+		n = len(histScript)
+	}
 	t := uint64(1000 + r.Intn(100000))
 	if r.Intn(6) == 0 {
 		t = uint64(1) << 40
@@ -771,30 +827,13 @@ func genHistory(r *rand.Rand, focus string, maxLen int) (*histCase, []protocol.P
 		if d.rec == nil {
 			d.rec, d.upd, d.suffix = d.newKey(), d.newKey(), "EiAsuffix"
 		}
-		muts := mutationsFor(typ)
-		var pool []string
-		switch focus {
-		case "window":
-			for _, m := range muts {
-				switch m {
-				case "", "early", "late", "at_from", "at_until", "at_default_until", "after_default_until", "until_only", "inverted_window", "negative_until", "negative_from", "compose_fails":
-					pool = append(pool, m)
-				}
-			}
-		case "auth":
-			for _, m := range muts {
-				if m == "" || strings.HasPrefix(m, "sig_") || strings.HasPrefix(m, "key_") || strings.HasPrefix(m, "reveal_") ||
-					strings.HasPrefix(m, "delta_substituted") || m == "delta_hash_truncated" || strings.Contains(m, "header") || strings.HasPrefix(m, "alg_") ||
-					m == "payload_reencoded" || m == "kid_added_no_resign" || strings.HasPrefix(m, "signed_suffix_") || m == "recover_payload_replayed" || strings.HasPrefix(m, "jws_") {
-					pool = append(pool, m)
-				}
-			}
-		default:
-			pool = muts
-		}
+		pool := mutationPool(focus, typ)
 		mut := pool[r.Intn(len(pool))]
 		if i == 0 && typ == "create" && r.Intn(3) != 0 {
 			mut = ""
+		}
+		if histScript != nil {
+			typ, mut = histScript[i][0], histScript[i][1]
 		}
 		cfg := base
 		cfg.Patches = append([]string{}, base.Patches...)
@@ -804,7 +843,7 @@ func genHistory(r *rand.Rand, focus string, maxLen int) (*histCase, []protocol.P
 		saveRec, saveUpd, saveSuffix := d.rec, d.upd, d.suffix
 		b := d.buildOp(typ, mut, t, &cfg)
 		aType := typ
-		if r.Intn(40) == 0 {
+		if r.Intn(40) == 0 && histScript == nil {
 			aType = "other"
 			b.label += "+unknown_anchored_type"
 		}
